@@ -121,6 +121,9 @@ namespace embedded_pairing::wkdibe {
                         qualified.a0.add(qualified.a0, temp);
                         x++;
                     }
+                } else if (x != sk.l && sk.b[x].idx == i) {
+                    /* Slot i becomes hidden: skip the b element of sk. */
+                    x++;
                 }
                 k++;
             } else if (x != sk.l && sk.b[x].idx == i) {
@@ -157,9 +160,11 @@ namespace embedded_pairing::wkdibe {
         int j = 0; /* Index for writing to qualified.b */
         int k = 0; /* Index for reading from attrs.attrs */
         for (int i = 0; i != params.l; i++) {
-            if (k != attrs.length && !attrs.attrs[k].omitFromKeys && attrs.attrs[k].idx == i) {
-                temp.multiply(params.h[i], attrs.attrs[k].id);
-                sk.a0.add(sk.a0, temp);
+            if (k != attrs.length && attrs.attrs[k].idx == i) {
+                if (!attrs.attrs[k].omitFromKeys) {
+                    temp.multiply(params.h[i], attrs.attrs[k].id);
+                    sk.a0.add(sk.a0, temp);
+                }
                 k++;
             } else if (!attrs.omitAllFromKeysUnlessPresent) {
                 sk.b[j].idx = i;
@@ -186,9 +191,12 @@ namespace embedded_pairing::wkdibe {
         int x = 0; /* Index for reading from sk.b */
         for (int i = 0; x != sk.l && i != params.l; i++) {
             if (k != attrs.length && attrs.attrs[k].idx == i) {
-                if (sk.b[x].idx == i && !attrs.attrs[k].omitFromKeys) {
-                    temp.multiply(sk.b[x].hexp, attrs.attrs[k].id);
-                    qualified.a0.add(qualified.a0, temp);
+                if (sk.b[x].idx == i) {
+                    if (!attrs.attrs[k].omitFromKeys) {
+                        temp.multiply(sk.b[x].hexp, attrs.attrs[k].id);
+                        qualified.a0.add(qualified.a0, temp);
+                    }
+                    /* Also skip the b element if slot i becomes hidden. */
                     x++;
                 }
                 k++;
@@ -224,15 +232,20 @@ namespace embedded_pairing::wkdibe {
         int x = 0;
         for (int i = 0; i != parent.l; i++) {
             int idx = parent.b[i].idx;
-            while (j != from.length && from.attrs[j].idx < idx && !from.attrs[j].omitFromKeys) {
+            while (j != from.length && from.attrs[j].idx < idx) {
                 j++;
             }
-            while (k != to.length && to.attrs[k].idx < idx && !to.attrs[k].omitFromKeys) {
+            while (k != to.length && to.attrs[k].idx < idx) {
                 k++;
             }
 
-            bool sub_from = (j != from.length && from.attrs[j].idx == idx);
-            bool add_to = (k != to.length && to.attrs[k].idx == idx);
+            /*
+             * A hidden slot (omitFromKeys) contributes nothing to a0, but,
+             * like a filled slot, it has no b element in the adjusted key.
+             */
+            bool sub_from = (j != from.length && from.attrs[j].idx == idx && !from.attrs[j].omitFromKeys);
+            bool add_to = (k != to.length && to.attrs[k].idx == idx && !to.attrs[k].omitFromKeys);
+            bool hide_to = (k != to.length && to.attrs[k].idx == idx && to.attrs[k].omitFromKeys);
 
             if (j != from.length || k != to.length) {
                 if (sub_from && add_to) {
@@ -253,7 +266,7 @@ namespace embedded_pairing::wkdibe {
                 }
             }
 
-            if (!add_to) {
+            if (!add_to && !hide_to) {
                 sk.b[x].idx = parent.b[i].idx;
                 sk.b[x].hexp.copy(parent.b[i].hexp);
                 x++;
